@@ -273,8 +273,16 @@ func Main(m *testing.M, id, rule string, assumptions []string) {
 	_ = flag.Set("rapid.nofailfile", "true")
 	code := m.Run()
 	flush(code)
+	for _, f := range atExit {
+		f()
+	}
 	os.Exit(code)
 }
+
+var atExit []func()
+
+// AtExit registers clean-up that Main runs before it exits the process.
+func AtExit(f func()) { atExit = append(atExit, f) }
 
 // Rapid runs prop under rapid with the case count of the current tier and the
 // seed derived from VERIF_SEED, the shard and the check name.
